@@ -74,6 +74,14 @@ CLAIMED = {
         "DESIGN.md 4 C15",
         "The terminal emulator (vf/term.py) defines the terminal semantics assumed (deferred auto-wrap, tab stops of 8).",
     ),
+    "C16": (
+        "explicit enumeration of call sequences + complete (max, step) sweep + Hypothesis sequences under a virtual clock; every stream write recorded with its virtual time, frames parsed with the format's placeholder grammar, stream replayed on a terminal emulator",
+        "Call sequences (start/advance/set_progress/display/clear/finish/set_message/clock ticks) for ANSI, plain, section and quiet "
+        "outputs under a virtual clock: bar width, current/max/percent truthfulness (exact integer arithmetic), throttle interval in "
+        "virtual time, forced draws at the maximum and on finish, final frame, residue-free terminal line, plain one-frame-per-line, quiet silence.",
+        "DESIGN.md 4 C16",
+        "The clock is virtual: the module attribute progress_bar.time is rebound from outside (no source hook).",
+    ),
     "C12": (
         "bounded-exhaustive operation sequences + Hypothesis op lists against a list-based reference model of the dispatcher",
         "All 11^5 (quick) / 11^7 (thorough) register/dispatch sequences, each with and without queries after every step, plus "
